@@ -1494,9 +1494,9 @@ func (d *DFA) getStartState(cache *DFACache, haystack []byte, pos int, anchored 
 	// This handles the case where another goroutine may have inserted it
 	insertedState, existed, err := cache.GetOrInsert(key, state)
 	if err != nil {
-		// Cache full - return the computed state anyway
-		// (it won't be cached, but search can continue)
-		return state
+		// Cache full: a state without a row in the transition table must not
+		// reach the search loops (see startStateAfterClear).
+		return d.startStateAfterClear(cache, kind, anchored, key, state)
 	}
 
 	// Register in ID lookup map (only if we inserted a new state)
@@ -2042,6 +2042,38 @@ func (d *DFA) IsMatchReverse(cache *DFACache, haystack []byte, start, end int) b
 	return eoi != nil && containsNFAMatch(d.nfa, eoi.NFAStates())
 }
 
+// startStateAfterClear is the slow path of getStartState/getStartStateForReverse
+// for a start state that did not fit into the cache: the cache is cleared
+// (counting against MaxCacheClears, like a clear in determinize) and the state is
+// inserted into the empty cache. Returns nil if that is not possible either; the
+// caller then uses the NFA for this search.
+//
+// The state must NOT be handed to a search loop uncached, as it used to be: it has
+// no row in the transition table and its id is still InvalidState, whose Offset()
+// is 0. The loops index the table with sid.Offset(), so they would read - and
+// determinize would write - row 0, which belongs to another state (after a cache
+// clear: the start state rebuilt by tryClearCache), and follow that state's
+// transitions: "(?m)^a" then matched in the middle of a line.
+//
+// Clearing here is safe: start states are requested at the beginning of a search
+// or at points where the search loop drops its current state and continues from
+// the returned start state only.
+func (d *DFA) startStateAfterClear(cache *DFACache, kind StartKind, anchored bool, key StateKey, state *State) *State {
+	if err := d.tryClearCache(cache); err != nil {
+		return nil
+	}
+	insertedState, existed, err := cache.GetOrInsert(key, state)
+	if err != nil {
+		return nil
+	}
+	if !existed {
+		cache.registerState(insertedState)
+	}
+	insertedState.id = insertedState.id.WithStartTag()
+	cache.startTable.Set(kind, anchored, insertedState.ID())
+	return insertedState
+}
+
 // getStartStateForReverse returns the appropriate start state for reverse search.
 // For reverse search, we need to consider the context at the END of the search region.
 func (d *DFA) getStartStateForReverse(cache *DFACache, haystack []byte, end int) *State {
@@ -2065,7 +2097,7 @@ func (d *DFA) getStartStateForReverse(cache *DFACache, haystack []byte, end int)
 
 	insertedState, existed, err := cache.GetOrInsert(key, state)
 	if err != nil {
-		return state
+		return d.startStateAfterClear(cache, kind, false, key, state)
 	}
 
 	if !existed {
